@@ -402,11 +402,14 @@ func runProperty(w *World, o *checkOpts) *Report {
 		}(j)
 	}
 	wg.Wait()
+	if o.tier == "thorough" && o.stab == 0 && !o.fast {
+		o.stab = 2 // thorough: every discharged obligation is re-run under two more solver seeds (report only)
+	}
 	if o.stab > 0 {
 		var mu sync.Mutex
 		var wg2 sync.WaitGroup
 		for _, j := range jobs {
-			if j.o.Cover || j.o.Result.Status != "unsat" {
+			if j.o.Cover || j.o.Result.Status != "unsat" || j.o.Result.File == "" {
 				continue
 			}
 			wg2.Add(1)
@@ -778,6 +781,7 @@ func (rep *Report) finish(o *checkOpts) int {
 			"vacuity_failures":         rep.Vacuity,
 			"bounded":                  boundedEv,
 			"effect_closures":          rep.Effects,
+			"stability":                map[string]interface{}{"extra_seeds_per_obligation": o.stab, "slow_or_undecided_under_another_seed": rep.Unstable},
 		},
 		"assumptions": assumptions,
 		"wall_s":      rep.WallS,
